@@ -30,7 +30,7 @@ except Exception:   # pragma: no cover
     pass
 
 ID = "C20"
-RUNS = {"quick": 45_000, "thorough": 2_000_000}
+RUNS = {"quick": 40_000, "thorough": 2_000_000}
 SIM_TIME_UNIT = "operations on the Deferred"
 RULE = (
     "each run = a history of 1..7 operations on one Deferred in a simulator-chosen order -- add a pass-through "
